@@ -267,7 +267,8 @@ def run(ctx: Ctx):
     one = np.float64(1.0)
     T = 10 if ctx.thorough else 1
     # ------------------------------------------------------------------ boundary stream
-    idx = [0.0, 0.5, 1 - 1e-9, float(np.nextafter(one, 0)), 1.0, float(np.nextafter(one, 2)), 1 + 1e-9, 2.0, 2.5, 3.0, 4.0]
+    idx = [0.0, 0.5, 1 - 1e-9, float(np.nextafter(one, 0)), 1.0, float(np.nextafter(one, 2)), 1 + 1e-9, 2.0, 2.5, 3.0, 4.0,
+           1 - 9e-6, 1 - 2e-6, 1 + 2e-6, 1 + 5e-6, 1 + 3e-5, 1 - 1e-4]   # close to 1 but far from the cancellation region: NOT the index-1 spectrum
     bands = [(6.0, 12.0), (7.0, 9.0), (6.0, 7.0), (11.0, 12.0), (8.0, 8.001), (6.0, 6.000001), (11.999999, 12.0),
              (9.3, 9.300001), (6.5, 11.25)]
     ub = [0.0, 5e-324, 2.2250738585072014e-308, 1e-300, 1e-17, 2.0 ** -53, 2.0 ** -52, 1e-9, 0.25, 0.5, 0.75, 1 - 1e-9,
